@@ -50,8 +50,19 @@ func gen1(t *rapid.T) Case {
 			cl.S = "c"
 		}
 		filler := gen.Pattern(t, gen.Cfg{Depth: 1, Inline: ""})
-		body := ast.Quant(ast.Group(ast.GNon, ast.Alt(open, cl, filler)), 0, -1, rapid.Bool().Draw(t, "lazy"))
+		alts := ast.Alt(open, cl, filler)
+		if cl.S != "" && rapid.IntRange(0, 2).Draw(t, "loopref") == 0 {
+			// a reference to the transferred capture as one more alternative of the loop
+			alts.Kids = append(alts.Kids, &ast.Node{K: ast.KBackref, S: rapid.SampledFrom([]string{"c", "o"}).Draw(t, "looprefname")})
+		}
+		body := ast.Quant(ast.Group(ast.GNon, alts), 0, -1, rapid.Bool().Draw(t, "lazy"))
 		root := ast.Seq(body)
+		if rapid.IntRange(0, 2).Draw(t, "balrtl") == 0 {
+			o |= regexp2.RightToLeft // captures are cancelled by groups lying to their right
+		}
+		if rapid.IntRange(0, 2).Draw(t, "balref") == 0 {
+			root.Kids = append(root.Kids, ast.Quant(&ast.Node{K: ast.KBackref, S: "o"}, 0, 1, false))
+		}
 		if rapid.Bool().Draw(t, "cond") {
 			root.Kids = append(root.Kids, &ast.Node{K: ast.KCond, S: "o", Kids: []*ast.Node{nil, ast.Group(ast.GNegLookahead, ast.Empty()), ast.Empty()}})
 		}
